@@ -107,7 +107,9 @@ type Fault struct {
 	Msg  string
 }
 
-func (f *Fault) Error() string { return fmt.Sprintf("ebpf fault in %s at pc=%d: %s", f.Prog, f.PC, f.Msg) }
+func (f *Fault) Error() string {
+	return fmt.Sprintf("ebpf fault in %s at pc=%d: %s", f.Prog, f.PC, f.Msg)
+}
 
 // ---------------------------------------------------------------------------------------------
 // Memory
@@ -154,8 +156,12 @@ type VM struct {
 	Trace func(p *Program, pc int, in Insn, regs *[11]uint64)
 	// Packet is the packet buffer seen by bpf_skb_load_bytes / bpf_skb_store_bytes.
 	Packet []byte
-	// ForEachOrder, if set, chooses the visiting order of bpf_for_each_map_elem (default: sorted keys).
-	ForEachOrder func(m Map, sorted [][]byte) [][]byte
+	// ForEachPick, if set, is called by bpf_for_each_map_elem before every element with the keys not
+	// yet visited (sorted) and returns the index of the one to visit next (default 0). It is a
+	// scheduling point for harnesses: other actors may run inside it.
+	ForEachPick func(m Map, remaining [][]byte) int
+	// MaxTailCalls bounds chained tail calls (default: the kernel's 33).
+	MaxTailCalls int
 	// OnMapOp, if set, observes helper-level map operations: op is "lookup", "update", "delete".
 	OnMapOp func(op string, m Map, key []byte)
 
@@ -192,11 +198,12 @@ type TailCall struct {
 // NewVM returns a VM with the standard helper set.
 func NewVM() *VM {
 	vm := &VM{
-		mapsByFD:   map[int32]Map{},
-		mapsByName: map[string]Map{},
-		helpers:    map[int32]HelperFn{},
-		named:      map[string]HelperFn{},
-		MaxInsns:   1 << 20,
+		mapsByFD:     map[int32]Map{},
+		mapsByName:   map[string]Map{},
+		helpers:      map[int32]HelperFn{},
+		named:        map[string]HelperFn{},
+		MaxInsns:     1 << 20,
+		MaxTailCalls: MaxTailCalls,
 	}
 	vm.installStdHelpers()
 	return vm
@@ -823,7 +830,7 @@ func (vm *VM) dataPtr(p *Program, sec string) (uint64, error) {
 // when a tail call was taken (vm.cur and the registers are already set up).
 func (vm *VM) doCall(p *Program, pc int, in Insn, frames *[]frame) (int, error) {
 	// bpf-to-bpf call
-	if in.Src == 1 || in.SymKind == relocText {
+	if in.SymKind != relocHelper && (in.Src == 1 || in.SymKind == relocText) {
 		var target int
 		if in.SymKind == relocText {
 			target = p.textBase + int(in.SymOff/8) + int(in.Imm) + 1
@@ -1125,15 +1132,15 @@ func NewProgArray(name string, max uint32) *ProgArrayMap {
 	return &ProgArrayMap{name: name, Progs: map[uint32]*Program{}, Max: max}
 }
 
-func (a *ProgArrayMap) Name() string                                { return a.name }
-func (a *ProgArrayMap) Type() MapType                               { return ProgArray }
-func (a *ProgArrayMap) KeySize() int                                { return 4 }
-func (a *ProgArrayMap) ValueSize() int                              { return 4 }
-func (a *ProgArrayMap) Lookup(key []byte) ([]byte, bool)            { return nil, false }
-func (a *ProgArrayMap) Update(key, value []byte, flags uint64) int  { return EINVAL }
-func (a *ProgArrayMap) Delete(key []byte) int                       { return EINVAL }
-func (a *ProgArrayMap) Keys() [][]byte                              { return nil }
-func (a *ProgArrayMap) Set(i uint32, p *Program)                    { a.Progs[i] = p }
+func (a *ProgArrayMap) Name() string                               { return a.name }
+func (a *ProgArrayMap) Type() MapType                              { return ProgArray }
+func (a *ProgArrayMap) KeySize() int                               { return 4 }
+func (a *ProgArrayMap) ValueSize() int                             { return 4 }
+func (a *ProgArrayMap) Lookup(key []byte) ([]byte, bool)           { return nil, false }
+func (a *ProgArrayMap) Update(key, value []byte, flags uint64) int { return EINVAL }
+func (a *ProgArrayMap) Delete(key []byte) int                      { return EINVAL }
+func (a *ProgArrayMap) Keys() [][]byte                             { return nil }
+func (a *ProgArrayMap) Set(i uint32, p *Program)                   { a.Progs[i] = p }
 
 // LPMTrieMap is a BPF_MAP_TYPE_LPM_TRIE: keys are {u32 prefixlen (host endian); data[]}.
 type LPMTrieMap struct {
